@@ -345,6 +345,24 @@ def run(chk, repo, tier):
                     'sum)' % f.name,
                found='; '.join(describe(m) for m in muts))
 
+    # ---- R01.9 what the membership test relies on --------------------------
+    from .. import reviewed
+    reviewed.check(chk, 'R01.9', repo, 'pgradd/yaml_io/schema.py',
+                   'ObjectLoader.__call__',
+                   'the object loader leaves absent optional members out of '
+                   'the loaded record (the missing-data test is '
+                   '`pset not in lib[group]`)')
+    reviewed.check(chk, 'R01.9', repo, 'pgradd/Error.py',
+                   'GroupMissingDataError.__init__',
+                   'GroupMissingDataError stores the groups and the '
+                   'property-set name it is given, in that order')
+    for q in ('GroupLibrary.__init__', 'GroupLibrary.__contains__',
+              'GroupLibrary.__iter__', 'GroupLibrary.__len__',
+              'GroupLibrary._do_load'):
+        reviewed.check(chk, 'R01.9', repo, LIB, q,
+                       '%s (library contents and lookup) is unchanged in '
+                       'normal form from its reviewed reference' % q)
+
     # ---- R01.4 total lookup ---------------------------------------------
     gi = repo.func(LIB, 'GroupLibrary.__getitem__')
     gps = sym.summarize(gi)
